@@ -62,7 +62,7 @@ Definition run (c : case) : sx :=
                                                            then acc else acc ++ [e]) (pdag ps2) []) with   (* a DiGraph has no parallel edges *)
                | SL [labs; es] =>
                    SL [labs; es;
-                       SL (map (fun nd => SL (map SN (sort Nat.ltb (nodup Nat.eq_dec (deps_shallow nd))))) (pheap ps2));
+                       SL (map (fun nd => SL (map SN (sort Nat.ltb (nodup Nat.eq_dec (deps_edge nd))))) (pheap ps2));
                        SL (map (fun nd => SL (map SN (sort Nat.ltb (nodup Nat.eq_dec (deps_all nd))))) (pheap ps2))]
                | x => x
                end
